@@ -71,6 +71,16 @@ def run(rep, tier):
                                 f'{what}: the {label} of the driver is not a local object', f'sourcer/translator.py:{name}'))
         rep.oblige(True, 2)
     routes.run(rep, 'C18', ['WIRE-parent-readonly'])
+    # nested parses started from inline Python: their (already finalised) objects may be embedded in the
+    # outer result
+    from .. import finalize
+    rep.rule('SPAN-convert-once', 'only raw spans are converted: results of nested parses can be embedded')
+    for what, tree, rel in routes.runtime_subjects():
+        fnd = []
+        finalize.finalize_rules(load.functions_of(tree), what, lambda r, m: fnd.append((r, m)))
+        for r, m in fnd:
+            if r == 'SPAN-convert-once':
+                rep.add(Finding(r, f'{rel}:runtime', '', m, f'{rel} ({what})'))
     # wiring of the context: `_ctx = _Context()` at module level in translator's emission
     tr = load.read('sourcer/translator.py')
     if "_ctx = _Context()" not in tr:
